@@ -210,46 +210,63 @@ def rule_padding(ctx, rid):
         ctx.undecided(rid, fi, c1, 'no padded return found')
     else:
         ctx.passed(rid, fi, c1, '%d padded return forms; defaults reflect/odd and median/1' % n)
-    # loop exit condition
-    loops = [n for n in walk_local(fi.node) if isinstance(n, ast.While)]
+    # loop exit condition, read from the evaluated paths: the conditions that were decided on the locations which are
+    # finally returned (works for `while C:` as well as for `while True: ... if D: break`)
     c2 = 're-padding stops exactly when both edges are covered: max >= N and min < 0'
-    if len(loops) != 1:
-        ctx.undecided(rid, fi, c2, '%d while loops' % len(loops))
-    else:
-        ev = Evaluator(P)
-        st = None
-        for e in exits:
-            if e.kind == 'return' and e.state.loops:
-                st = e.state
-        test = loops[0].test
-        # evaluate the test on symbolic names
-        from ..paths import State
-        s0 = State()
-        lv = None
-        for nn in ast.walk(test):
-            if isinstance(nn, ast.Name) and nn.id not in ('max', 'min', 'len', 'np'):
-                s0.env[nn.id] = S(nn.id)
-        t = ev._ev(test, s0, fi.module, fi, 0)[0][0]
-        locname = [nm for nm in s0.env if nm != fi.params[0]]
-        L = S(locname[0]) if locname else S('locs')
-        Xs = S(fi.params[0])
-        spec_continue = ('or', (('cmp', '<', ('call', 'builtins.max', (L,), ()), ('call', 'builtins.len', (Xs,), ())),
-                                ('cmp', '>=', ('call', 'builtins.min', (L,), ()), C(0))))
-        got = nnf(t, alg)
-        want = nnf(spec_continue, alg)
-        if got == want:
-            ctx.passed(rid, fi, c2, 'continue while ' + show_nnf(got)[:120])
+    Xs = S(fi.params[0])
+    n_ok = 0
+    bad = None
+    for e in exits:
+        if e.kind != 'return' or e.value[0] != 'tuple' or not e.state.loops:
+            continue
+        L = e.value[1][0]
+        if not (L[0] == 'call' and L[1] == 'numpy.pad'):
+            continue
+        on_L = [(c, truth) for c, truth, ln in e.state.conds if L in set(subterms(c))]
+        if not on_L:
+            bad = 'padded locations are returned without testing that they cover both edges'
+            continue
+        conj = ('and', tuple(c if truth else ('un', 'not', c) for c, truth in on_L))
+        spec = ('and', (('cmp', '>=', ('call', 'builtins.max', (L,), ()), ('call', 'builtins.len', (Xs,), ())),
+                        ('cmp', '<', ('call', 'builtins.min', (L,), ()), C(0))))
+        got, want = nnf(conj, alg), nnf(spec, alg)
+        # X may have been sliced to 1-d first: len(X[:, 0]) == len(X)
+        spec2 = ('and', (('cmp', '>=', ('call', 'builtins.max', (L,), ()),
+                          ('call', 'builtins.len', (('sub', Xs, ('tuple', (('slice', NONE, NONE, NONE), C(0)))),), ())),
+                         ('cmp', '<', ('call', 'builtins.min', (L,), ()), C(0))))
+        if got in (want, nnf(spec2, alg)):
+            n_ok += 1
         else:
-            ctx.violation(rid, fi, c2, 'loop continues while %s' % show_nnf(got)[:150], expected=show_nnf(want)[:150])
-    # the padded arrays in the loop use the same width again
-    c3 = 'the re-padding loop pads both arrays with the same width and options'
-    body = loops[0].body if loops else []
-    pcs = [n.value for n in body if isinstance(n, ast.Assign) and isinstance(n.value, ast.Call)
-           and P.resolve(fi.module, n.value.func, fi) == 'numpy.pad']
-    if len(pcs) == 2 and unparse(pcs[0].args[1]) == unparse(pcs[1].args[1]):
-        ctx.passed(rid, fi, c3)
+            bad = 'padding stops when %s' % show_nnf(got)[:160].replace(alg.canon(L), 'L')
+    if bad:
+        ctx.violation(rid, fi, c2, bad, expected='max(L) >= len(X) and min(L) < 0')
+    elif n_ok == 0:
+        ctx.undecided(rid, fi, c2, 'no path returns re-padded locations')
     else:
-        ctx.violation(rid, fi, c3, 'loop body pads: %s' % [unparse(p)[:60] for p in pcs])
+        ctx.passed(rid, fi, c2, '%d exit states' % n_ok)
+    loops = [n for n in walk_local(fi.node) if isinstance(n, ast.While)]
+    # the padded arrays in the loop use the same width again: the pad chains of locations and magnitudes in every
+    # returned pair were compared above (c1) including the states that went through the loop
+    c3 = 'the re-padding loop pads both arrays with the same width and options'
+    looped = [e for e in rets if e.state.loops]
+    if not looped:
+        ctx.undecided(rid, fi, c3, 'no return path through the re-padding loop')
+    elif bad_loop(looped):
+        ctx.violation(rid, fi, c3, bad_loop(looped))
+    else:
+        ctx.passed(rid, fi, c3, '%d return paths through the loop' % len(looped))
+
+
+def bad_loop(rets):
+    for e in rets:
+        lo, mg = e.value[1]
+        if not (lo[0] == 'call' and lo[1] == 'numpy.pad' and mg[0] == 'call' and mg[1] == 'numpy.pad'):
+            return 'loop result is not a padded pair'
+        wl = lo[2][1] if len(lo[2]) > 1 else None
+        wm = mg[2][1] if len(mg[2]) > 1 else None
+        if wl != wm:
+            return 'loop pads locations by %s and magnitudes by %s' % (show(wl), show(wm))
+    return None
 
 
 # ----------------------------------------------------------------------------------------------
